@@ -148,6 +148,11 @@ def items(tier):
     for k in range(8):
         out.append((i, 'rep', k))
         i += 1
+    if tier == 'thorough':
+        for op in BIN:
+            for side in (0, 1):
+                out.append((i, 'd3', op, side))
+                i += 1
     out.append((i, 'spec'))
     i += 1
     return out
@@ -180,6 +185,20 @@ def run_item(item, tier):
                 check_tree(st, ('idx', a, ('var', 'a')), 'index of depth-1')
                 check_tree(st, ('idx', ('var', 'a'), a), 'depth-1 as index')
                 check_tree(st, a, 'depth-1')
+    elif kind == 'd3':
+        # all depth-2 trees over leaf {a} (every operator) combined with a leaf under every binary operator: depth 3
+        lv = trees_depth([('var', 'a')], ['+', '-', 'not'], ['int', ('arr', 'byte', True)], BIN, 1)
+        t1 = lv[0] + lv[1]
+        op, side = item[2], item[3]
+        n = 0
+        for o2 in BIN:
+            for x in t1:
+                for y in t1:
+                    inner = ('bin', o2, x, y)
+                    t = ('bin', op, inner, ('var', 'b')) if side == 0 else ('bin', op, ('var', 'b'), inner)
+                    check_tree(st, t, 'depth-3 tree')
+                    n += 1
+        st.sample({'family': 'all depth-2 trees as one operand of', 'operator': op, 'side': side, 'trees': n})
     elif kind == 'triples':
         o1 = item[2]
         ops2 = BIN if thorough else BIN
@@ -252,6 +271,7 @@ def coverage(total, tier):
             'triples': 'all ordered operator pairs in both shapes and ' + ('all' if tier == 'thorough' else '13 x 13 x 8') + ' operator triples in all 5 binary tree shapes',
             'depth3': 'depth-3 trees over one operator per precedence level (* + < and or, unary - not, is int, postfix) with one side of depth <= 1'
                       + ('' if tier == 'thorough' else ' (every 3rd depth-2 subtree)'),
+            'depth3_all': 'thorough: every depth-2 tree over leaf a (all 13 binary operators, unary, is, postfix) as left or right operand of every binary operator',
             'speculation': '?? at top level over all depth<=1 operand pairs and parenthesised inside every operator level, unary, index and call argument',
         },
     }
